@@ -1,6 +1,43 @@
-(* Runner for property C19: wire arguments -> model -> wire result. Filled in by the C19 model. *)
+(* Runner for property C19: the checkers of Defs/DefEq.v and Defs/Coherence.v over the generated
+   data, reporting WHICH definitions fail (the check turns these into concrete witnesses).
+     c19 report  ->  ( ( differing-or-missing published files: ( kind name ) ... )
+                       ( orphan published files: ( kind name ) ... )
+                       ( incoherent: ( kind name clause-index ) ... ) )
+   kind: regimes | addons | catalogues | world; clause-index counts the clauses of
+   regime_clauses / addon_clauses from 0; 100 = scenario tags, 101 = tag keys unique. *)
 From Coq Require Import ZArith List String Bool.
-From Verif Require Import Base.Wire.
+From Verif Require Import Base.Wire Defs.DefTypes Defs.DefEq Defs.Coherence.
+From Verif Require Import Gen.Regimes Gen.Addons Gen.Catalogues Gen.Currencies Gen.Published.
 Import ListNotations.
+Open Scope Z_scope.
 
-Definition run_c19 (args : list V) : list V := [verr "not-implemented"].
+Definition c19_world : world := mkWorld in_code_regimes in_code_addons in_code_catalogues currencies.
+
+Definition c19_named (kind : string) (names : list str) : list V := map (fun n => VL [VS (bs kind); VS n]) names.
+
+Fixpoint c19_failed (kind : string) (name : str) (cl : list bool) (i : Z) : list V :=
+  match cl with
+  | [] => []
+  | b :: r => (if b then [] else [VL [VS (bs kind); VS name; VI i]]) ++ c19_failed kind name r (i + 1)
+  end.
+
+Definition run_c19 (args : list V) : list V :=
+  match args with
+  | o :: _ =>
+    if String.eqb (opname o) "report" then
+      [ VL (c19_named "regimes" (uncovered regime_eqb in_code_regimes published_regimes) ++
+            c19_named "addons" (uncovered addon_eqb in_code_addons published_addons) ++
+            c19_named "catalogues" (uncovered catalogue_eqb in_code_catalogues published_catalogues));
+        VL (c19_named "regimes" (orphans in_code_regimes published_regimes) ++
+            c19_named "addons" (orphans in_code_addons published_addons) ++
+            c19_named "catalogues" (orphans in_code_catalogues published_catalogues));
+        VL ((if world_coherentb c19_world then [] else [VL [VS (bs "world"); VS (bs "world"); VI 0]]) ++
+            flat_map (fun nr => c19_failed "regimes" (fst nr)
+                                  (regime_clauses c19_world (snd nr)) 0 ++
+                                c19_failed "regimes" (fst nr)
+                                  [regime_scenario_tagsb (snd nr); tag_keys_uniqueb (rg_tags (snd nr))] 100) in_code_regimes ++
+            flat_map (fun na => c19_failed "addons" (fst na) (addon_clauses c19_world (snd na)) 0 ++
+                                c19_failed "addons" (fst na) [true; tag_keys_uniqueb (ad_tags (snd na))] 100) in_code_addons) ]
+    else [verr "unknown-c19-op"]
+  | [] => [verr "unknown-c19-op"]
+  end.
